@@ -593,9 +593,25 @@ def value_getattr(I, obj, name):
                     return sym_slice_indices(I, r, n)
                 return r.indices(n)
             return E.BoundModel(indices, obj)
-    if isinstance(obj, Fraction) or isinstance(obj, int):
+    if isinstance(obj, (Fraction, int)) and not isinstance(obj, bool) or (is_sym(obj) and (z3.is_int(obj) or z3.is_real(obj))):
+        # numpy scalar methods on plain numbers
         if name == 'real':
             return obj
+        if name == 'astype':
+            def astype(I, r, args, kw):
+                from .nparr import dtype_kind
+                k = dtype_kind(args[0])
+                if k == 'i':
+                    I.ctx.trust('numpy.astype(int): truncation toward zero')
+                    return sym.trunc(r)
+                if k == 'f':
+                    return sym.to_real(r)
+                raise Unsupported('scalar astype %r' % (args[0],))
+            return E.BoundModel(astype, obj)
+        if name == 'copy':
+            return E.BoundModel(lambda I, r, a, k: r, obj)
+        if name in ('size', 'ndim'):
+            return 1 if name == 'size' else 0
     return None
 
 
